@@ -123,6 +123,22 @@ func (*c03) Corpus() []any {
 	// two failed non-atomic operations in a row (the witness of C03_history_contained_example): 1:deployed 2:failed 3:failed
 	out = append(out, hist(ab(eng.Flags{}), withK(c12Op("upgrade", 2, eng.Flags{}, nil, "a", "c"), "create", "ConfigMap/c"),
 		a4(eng.Flags{})))
+	// ---- a hook object left over from an earlier run (no before-hook-creation): its creation is refused with 409, the
+	// operation must fail and record its revision failed, the deployed revision stays (seeded C03-9 tolerates the 409) ----
+	lo := func(name string, ev []string, pol ...string) []eng.Hook { return []eng.Hook{hk(name, 0, ev, pol...)} }
+	u := func(chart int, hs []eng.Hook) *eng.Op { return c12Op("upgrade", chart, eng.Flags{}, hs, "a") }
+	// hook-failed only: a successful run leaves hp behind; the second upgrade cannot create it again
+	hpf := lo("hp", []string{"pre-upgrade"}, "hook-failed")
+	out = append(out, hist(c12Op("install", 1, eng.Flags{}, hpf, "a"), u(2, hpf), u(3, hpf), u(4, hpf)))
+	// hook-succeeded with a failing first run: hs stays; the next upgrade is refused as well
+	hss := lo("hs", []string{"pre-upgrade"}, "hook-succeeded")
+	out = append(out, hist(c12Op("install", 1, eng.Flags{}, hss, "a"), withH(u(2, hss), "hs", 0), u(3, hss)))
+	// the same in a rollback (pre-rollback hook, hook-failed only): the second rollback fails
+	hrf := lo("hr", []string{"pre-rollback"}, "hook-failed")
+	out = append(out, hist(c12Op("install", 1, eng.Flags{}, hrf, "a"), u(2, hrf), c12Op("rollback", 0, eng.Flags{}, nil), c12Op("rollback", 0, eng.Flags{}, nil)))
+	// ... and in an uninstall: hd ran on pre-upgrade and is due again on pre-delete
+	hdf := lo("hd", []string{"pre-upgrade", "pre-delete"}, "hook-failed")
+	out = append(out, hist(c12Op("install", 1, eng.Flags{}, hdf, "a"), u(2, hdf), c12Op("uninstall", 0, eng.Flags{}, nil)))
 	// ---- witnesses of the round-4 forms of the atomic-upgrade theorem ----
 	// C03_atomic_upgrade_hooks: hooks enabled; hp runs on pre- and post-upgrade with the default policy; PATCH b rejected => restored
 	hp := []eng.Hook{hk("hp", 0, []string{"pre-upgrade", "post-upgrade"})}
